@@ -120,6 +120,15 @@ Theorem C12_boolability_guard_exact_and_repairs :
 Proof. split; [exact boolab_guard_exact|exact boolability_repaired_classes]. Qed.
 Print Assumptions C12_boolability_guard_exact_and_repairs.
 
+(* 5b. unwrapping a TypeVar can yield a union AFTER get_boolability took the outer union apart
+       (x: Optional[AnyStr]): _get_boolability_no_mvv survives iff it delegates unions back
+       (regenerated flag); on the unchanged tree it does not (known finding
+       C12-boolability-typevar-in-union, fix proposed) *)
+Theorem C12_boolability_delegation_suffices :
+  mem_str "MultiValuedValue" boolability_delegated = true -> boolab_unwrapped_union_crashes = false.
+Proof. exact delegation_suffices. Qed.
+Print Assumptions C12_boolability_delegation_suffices.
+
 (* 6. the annotation visitor of the CURRENT annotations.py raises for no expression kind;
       a raising generic_visit crashes on exactly the kinds without a method *)
 Theorem C12_annotation_visitor_total : forall k, In k expr_kinds -> annotation_crashes k = false.
